@@ -1,7 +1,7 @@
 """C05 - a failing task or dying worker-side process fails the run, never hangs it."""
 from checks._simple import run_simple
 
-PROVED_TARGETS = ["cascade.executor.executor:Executor.healthcheck", "cascade.executor.runner.entrypoint:execute_sequence", "cascade.executor.executor:Executor.terminate", "cascade.executor.executor:Executor.recv_loop", "cascade.executor.bridge:Bridge.recv_events"]
+PROVED_TARGETS = ["cascade.executor.executor:Executor.healthcheck", "cascade.executor.runner.entrypoint:execute_sequence", "cascade.executor.executor:Executor.terminate", "cascade.executor.executor:Executor.recv_loop", "cascade.executor.bridge:Bridge.recv_events", "cascade.executor.bridge:Bridge.shutdown"]
 
 
 def run(tier, seed):
